@@ -351,7 +351,10 @@ def r_tailchk(repo, tier):
         guards = []  # (test node id, tailvar, bound text)
         for n in cfg.nodes:
             if n.kind == "test" and isinstance(n.ast, ast.If) and n.ast.body and isinstance(n.ast.body[-1], ast.Raise):
-                for c in ast.walk(n.ast.test):
+                import copy as _copy
+                from ..canon import _NormCmp
+                # `not T.size >= b` and `b > T.size` are the same test as `T.size < b`
+                for c in ast.walk(_NormCmp().visit(_copy.deepcopy(n.ast.test))):
                     if isinstance(c, ast.Compare) and len(c.ops) == 1 and isinstance(c.ops[0], ast.Lt):
                         l = norm(c.left)
                         for t in tv:
